@@ -171,16 +171,17 @@ theorem Parser.parse_cases {I : Parser → Prop} (hP : ParseSpec I) (s : Parser)
 /-! ## the refill step at buffer level: `Shrink` then `ReadFrom` on a completely parsed buffer -/
 
 /-- `e` is what the reader said last: `io.EOF` because the script of the model reader is exhausted,
-    or the report `ec` of the last consumed response (`(0, nil)` counts as `io.EOF`). -/
+    or the report `ec ≠ 0` of the last consumed response (a response with a nil error, also
+    `(0, nil)`, never ends `ReadFrom`). -/
 def ReaderSaid (r r' : Reader) (e : Err) : Prop :=
   (e = .eof ∧ r'.resps = []) ∨
-  (∃ j mx ec, r.resps.drop j = (mx, ec) :: r'.resps ∧ e = errOfCode (if ec = 0 then 1 else ec))
+  (∃ j mx ec, r.resps.drop j = (mx, ec) :: r'.resps ∧ ec ≠ 0 ∧ e = errOfCode ec)
 
 theorem ReaderSaid.ne {r r' : Reader} {e : Err} (h : ReaderSaid r r' e) :
     e ≠ .ok ∧ e ≠ .panic ∧ e ≠ .full ∧ e ≠ .empty := by
-  rcases h with ⟨h, _⟩ | ⟨j, mx, ec, _, h⟩
+  rcases h with ⟨h, _⟩ | ⟨j, mx, ec, _, hec, h⟩
   · rw [h]; simp
-  · rw [h]; exact errOfCode_ne _ (by split <;> omega)
+  · rw [h]; exact errOfCode_ne _ hec
 
 /-- **The `PBuf`-level lemma `Wrap` rests on.** On a completely parsed buffer (`W = len(Data)`) with
     `ShrinkSize < BufferSize`, `Shrink` followed by `ReadFrom` never returns `(0, ErrFullBuffer)`
@@ -209,7 +210,7 @@ theorem PBuf.refill_spec {b : PBuf} {fed : List Byte} (h : PInv b fed)
     rw [h1]; simp only [List.length_append, List.length_take]; omega
   have hnotfull : ¬ (k = 0 ∧ e = .full) := by
     rintro ⟨hk, he⟩
-    rcases hcase with ⟨a1, a2, g3, a4⟩ | ⟨g1, a2⟩ | ⟨a1, a2, a3, a4, g3, a6⟩
+    rcases hcase with ⟨a1, a2, g3, a4⟩ | ⟨g1, a2⟩ | ⟨a1, a2, a3, a4, a5, g3⟩
     · rw [hcfg2] at g3; omega
     · rw [he] at g1; cases g1
     · exact g3 he
@@ -230,12 +231,10 @@ theorem PBuf.refill_spec {b : PBuf} {fed : List Byte} (h : PInv b fed)
     · exact ⟨pre.length, by rw [g2, g3]; simp⟩
     · exact ⟨pre.length + 1, by rw [g1]; simp⟩
   · intro hk
-    have hpre0 : pre = [] := List.eq_nil_of_length_eq_zero (by omega)
-    subst hpre0
-    rcases hcase with ⟨g1, _⟩ | ⟨g1, _, g3, _⟩ | ⟨mx, ec, g1, g2, _⟩
+    rcases hcase with ⟨g1, _⟩ | ⟨g1, _, g3, _⟩ | ⟨mx, ec, g1, hec, g2, _⟩
     · exact absurd ⟨hk, g1⟩ hnotfull
     · exact Or.inl ⟨g1, g3⟩
-    · exact Or.inr ⟨0, mx, ec, by simpa using g1, g2⟩
+    · exact Or.inr ⟨pre.length, mx, ec, by rw [g1]; simp, hec, g2⟩
 
 /-! ## unfolding `Wrapped.parse` -/
 
@@ -281,9 +280,9 @@ def WrapPost (I : Parser → Prop) (wp : Wrapped) (fed : List Byte)
 
 theorem ReaderSaid.mono {r r1 r' : Reader} {e : Err} (j : Nat) (h1 : r1.resps = r.resps.drop j)
     (h : ReaderSaid r1 r' e) : ReaderSaid r r' e := by
-  rcases h with h | ⟨j', mx, ec, g1, g2⟩
+  rcases h with h | ⟨j', mx, ec, g1, hec, g2⟩
   · exact Or.inl h
-  · refine Or.inr ⟨j + j', mx, ec, ?_, g2⟩
+  · refine Or.inr ⟨j + j', mx, ec, ?_, hec, g2⟩
     rw [← g1, h1, List.drop_drop]
 
 theorem Wrapped.parse_post_aux {I : Parser → Prop} (hP : ParseSpec I) (flags : Nat) :
@@ -433,7 +432,7 @@ theorem C08_wrap_tail {I : Parser → Prop} (hP : ParseSpec I) (wp : Wrapped) (f
       simp only [Wrapped.pos] at g2
       omega
     refine ⟨g1, ?_, ⟨hdone, hw⟩, g2⟩
-    rcases g3 with ⟨g3, _⟩ | ⟨j', mx, ec, g3, g4⟩
+    rcases g3 with ⟨g3, _⟩ | ⟨j', mx, ec, g3, hec, g4⟩
     · exact g3
     · have hmem : (mx, ec) ∈ wp.r.resps := by
         apply List.mem_of_mem_drop (i := j')
@@ -441,7 +440,7 @@ theorem C08_wrap_tail {I : Parser → Prop} (hP : ParseSpec I) (wp : Wrapped) (f
       have := hd2 _ hmem
       simp only [] at this
       rw [g4]
-      apply errOfCode_le_one <;> split <;> omega
+      exact errOfCode_le_one ec hec this
 
 /-- **`(0, io.EOF)` and it stays that way**: in a drained state the call returns `(0, io.EOF)`
     and the state is drained again. -/
@@ -823,11 +822,11 @@ example : ((Wrapped.mk ⟨[], [(1, 7), (1, 0)]⟩ exParser).parse 0).2 = (0, .re
     readFrom, readLoop, shrink, init, grow, cfg4, Facts.margin, Facts.chunkSize, Facts.growMin, min3,
     errOfCode]
 
-/-- an exhausted reader on a drained wrapped parser: `(0, io.EOF)` -/
+/-- an exhausted reader on a drained wrapped parser: the `(0, nil)` answer is skipped, then the
+    script is exhausted: `(0, io.EOF)` -/
 example : ((Wrapped.mk ⟨[], [(1, 0)]⟩ exParser).parse 0).2 = (0, .eof, ⟨[], []⟩) := by
   simp [Wrapped.parse, Parser.parse, Parser.blockN, Parser.shrink, Parser.readFrom, exParser,
-    readFrom, readLoop, shrink, init, grow, cfg4, Facts.margin, Facts.chunkSize, Facts.growMin, min3,
-    errOfCode]
+    readFrom, readLoop, shrink, init, grow, cfg4, Facts.margin, Facts.chunkSize, Facts.growMin, min3]
 
 example : Drained (Wrapped.mk ⟨[], [(1, 0), (5, 1)]⟩ exParser) :=
   ⟨⟨rfl, by decide⟩, rfl⟩
